@@ -57,6 +57,7 @@ OBLIGATIONS = [
     "C11_src_observers_read_only_from_source", "C11_src_logging_transparent_observers_from_source",
     "C11_src_logging_transparent_canonical_observers", "C11_src_observer_frame_from_source",
     "C11_src_forbidden_observer_op_refuted", "C11_src_observer_ops_example",
+    "C11_src_logging_transparent_state_observers_from_source",
 ]
 
 
